@@ -27,6 +27,7 @@ type Engine struct {
 	trusted map[string]bool      // assumptions used (reported in evidence)
 	ghostTypes map[string]types.Type
 	loadErrs []string
+	curProp  string // property being checked (clauses can be scoped to properties)
 }
 
 type FuncInfo struct {
